@@ -146,7 +146,7 @@ func init() {
 	// ---------- G3: mandatory actions and their allowed guards ----------
 
 	register(&Rule{
-		ID: "C08.R5", Props: []string{"C08", "C17"}, Min: 2,
+		ID: "C08.R5", Props: []string{"C08", "C17", "C13"}, Min: 2,
 		Doc: "struct data is converted field by field without holes: in the struct→map conversions (StructToMap's worker and PopulateStructFields) the store of a field's value into the result is skipped only for unexported fields — no other condition (zero value, tag option, kind) may leave an exported field out, since a value passed through Fill must win over config data for every key it defines",
 		Run: func(p *Prog, c *Ctx) {
 			for _, name := range []string{"reflect.structToMap", "reflect.PopulateStructFields"} {
